@@ -5,6 +5,7 @@
   function of the list of line contents alone.
 -/
 import BB.Lemmas.ReadSplice
+import BB.Lemmas.ReadText
 import BB.Lemmas.ReadParse
 import BB.Lemmas.ReadPasses
 namespace BB
@@ -15,18 +16,25 @@ def itemsOfLines (lines : List Line) : Except Err (List Item) := do
   let toks ← frontEnd.lexAll lines
   frontEnd.parseAll toks
 
-theorem frontEnd_source (fs : FS) (cwd : String) (dirs : List String) (text : String)
-    (h1 : normAbs cwd = true) (h2 : dirs.all absOk = true)
-    (h3 : text.toList.all (fun c => c.toNat < 128) = true) :
+/-- for a source text inside the model (ASCII or not) -/
+theorem frontEnd_source_ok (fs : FS) (cwd : String) (dirs : List String) (text : String)
+    (h1 : normAbs cwd = true) (h2 : dirs.all absOk = true) (h3 : sourceOk text.toList = true) :
     frontEnd fs cwd dirs (.source text) =
       (readLinesAux fs dirs (fs.files.length + 2) "<string>" cwd text.toList).bind itemsOfLines := by
   unfold frontEnd
   simp only [h1, h2, h3]
   rfl
 
+theorem frontEnd_source (fs : FS) (cwd : String) (dirs : List String) (text : String)
+    (h1 : normAbs cwd = true) (h2 : dirs.all absOk = true)
+    (h3 : text.toList.all (fun c => c.toNat < 128) = true) :
+    frontEnd fs cwd dirs (.source text) =
+      (readLinesAux fs dirs (fs.files.length + 2) "<string>" cwd text.toList).bind itemsOfLines :=
+  frontEnd_source_ok fs cwd dirs text h1 h2 (sourceOk_of_ascii _ h3)
+
 theorem frontEnd_path (fs : FS) (cwd : String) (dirs : List String) (p : String) (bs : List Nat)
     (src : List Char) (h1 : normAbs cwd = true) (h2 : dirs.all absOk = true) (hp : absOk p = true)
-    (hr : fs.readAt p = some bs) (ha : bytesToAscii bs = some src) :
+    (hr : fs.readAt p = some bs) (ha : bytesToText bs = some src) :
     frontEnd fs cwd dirs (.path p) =
       (readLinesAux fs dirs (fs.files.length + 2) p (baseOf p) src).bind itemsOfLines := by
   unfold frontEnd
